@@ -36,7 +36,9 @@ json_val = st.recursive(json_leaf, lambda ch: st.one_of(
     st.dictionaries(st.one_of(st.text(max_size=5), st.integers(0, 9).map(str)), ch, max_size=4)), max_leaves=10)
 
 name_text = st.one_of(st.text(alphabet=st.characters(blacklist_characters="\x00", blacklist_categories=("Cs",)),
-                              min_size=1, max_size=8), st.sampled_from(["x", "délka", "名前", "a b", "p'1"]))
+                              min_size=1, max_size=8), st.sampled_from(["x", "délka", "名前", "a b", "p'1"]),
+                      # whitespace is data too: leading / trailing blanks, tabs, line breaks
+                      st.sampled_from([" lead", "trail ", "a\tb", "multi\nline", "  ", "\r", "x\n"]))
 
 
 @st.composite
@@ -96,7 +98,7 @@ def histories(draw):
     nind = 0
     for _ in range(draw(st.integers(1, 20))):
         o = draw(st.sampled_from(["new", "new", "new", "mutate", "mutate", "mutate_nosync", "add_nosync", "sync_all",
-                                  "view", "inplace", "inplace"]))
+                                  "view", "inplace", "inplace", "reopen_write"]))
         if o in ("new", "add_nosync"):
             ops.append({"op": o, "f": draw(fields(nind))})
             nind += 1
@@ -109,7 +111,7 @@ def histories(draw):
                                                       "feature-append", "costs-append"])),
                         "val": draw(st.one_of(st.integers(-9, 9).map(float), st.sampled_from([-0.0, 0.0, 1.5]))),
                         "sync": draw(st.sampled_from(["individual", "individual", "all"]))})
-        elif o in ("sync_all", "view"):
+        elif o in ("sync_all", "view", "reopen_write"):
             ops.append({"op": o})
     return {"meta": meta, "ops": ops, "thread_safe": draw(st.sampled_from([True, True, False]))}
 
@@ -232,6 +234,7 @@ def check_history(case):
     prob.description = meta["description"]
     classes = set()
     resynced = False
+    extra = []
     try:
         db = os.path.join(prob.working_dir, "c10.sqlite")
         with guard("store"):
@@ -252,6 +255,8 @@ def check_history(case):
                     with guard("store"):
                         prob.data_store.sync_individual(ind)
                     model[ind.id] = snapshot(ind)
+            elif o in ("mutate", "mutate_nosync", "inplace") and not objs:
+                continue      # nothing is left to change (everything unsynchronised was dropped by a reopen)
             elif o in ("mutate", "mutate_nosync"):
                 ind = objs[op["i"] % len(objs)]
                 _apply(ind, op["f"], objs)
@@ -307,9 +312,33 @@ def check_history(case):
             elif o == "view":
                 compare_view("store", db, meta, model, "after step %d" % k)
                 classes.add("mid-history-view")
+            elif o == "reopen_write":
+                # a second problem opens the existing file in write mode (it loads what is stored) and carries on
+                compare_view("store", db, meta, model, "before reopening at step %d" % k)
+                prob2 = make_problem(meta["parameters"], meta["costs"], lambda ind: [0.0], name=meta["name"])
+                extra.append(prob2)
+                with guard("store"):
+                    prob2.data_store = SqliteDataStore(prob2, database_name=db,
+                                                       thread_safe=case.get("thread_safe", True))
+                loaded = {i.id: i for i in prob2.individuals}
+                if sorted(loaded) != sorted(model):
+                    raise Violation("store", "reopen-write:ids", "reopened store loaded ids %r, synchronised %r" % (
+                        sorted(loaded), sorted(model)))
+                for i_, snap in model.items():
+                    have = snapshot(loaded[i_])
+                    for key in snap:
+                        if not same(have[key], snap[key]):
+                            raise Violation("store", "reopen-write:field:%s" % key, "id %r field %s loaded as %r, last "
+                                            "synchronised %r" % (i_, key, have[key], snap[key]))
+                prob = prob2
+                objs = list(prob2.individuals)
+                classes.add("reopened-in-write-mode")
         compare_view("store", db, meta, model, "at the end")
     finally:
-        dispose(prob)
+        for q in extra:
+            dispose(q)
+        if prob not in extra:
+            dispose(prob)
     txt = json.dumps(case["ops"])
     if resynced:
         classes.add("resynced-different")
